@@ -71,9 +71,7 @@ Qed.
 
 Lemma expr_path_leak_free : forall e p sub, expr_path e p sub -> leak_free p.
 Proof.
-  unfold leak_free, known_leaks.
-  induction 1; intros q' Hin; simpl in Hin; try contradiction;
-    (destruct Hin as [E|Hin]; [subst q'; simpl; try (destruct q); intuition discriminate|auto]).
+  intros e p sub _. apply all_leak_free.
 Qed.
 
 (* the flag computed from the REAL generator's table arrives at a sub-expression of a function body of the
